@@ -674,6 +674,11 @@ func mutexLock(ex *Exec, fr *frame, fn *ssa.Function, a []Value, s ssa.Instructi
 			ex.block(func() bool { return (*w).(*sym.Term).Val == 0 }, "Mutex.Lock at "+ex.instrPos(fr, s))
 			t = (*w).(*sym.Term)
 		} else {
+			if ex.atomicDepth > 0 {
+				// a harness observation (vfAtomic) met a lock held by a parked goroutine: the
+				// observation cannot be indivisible on this schedule; the path is dropped
+				panic(pathEnd{endInfeasible, "vfAtomic observation would block on a held mutex at " + ex.instrPos(fr, s)})
+			}
 			panic(pathEnd{endViolation, "self-deadlock: Lock of a mutex already held, at " + ex.instrPos(fr, s)})
 		}
 	}
